@@ -9,11 +9,17 @@
 (*   "RA" outgoing answer                                 {Packet, Abs, RA}*)
 (*   "B"  incoming, known, no reaction                    {Packet, B}      *)
 (*   "U"  incoming, unknown id (generic packet)           {Packet}         *)
+(*   "C"  incoming set-compression (login; play up to protocol 47): the    *)
+(*        reaction switches the compression envelope on   {Packet, C}      *)
 (*   "D"  final incoming packet; in the play state it is the disconnect     *)
 (*        packet (the reaction flushes and closes), in the login state it   *)
 (*        is login success (the reaction only switches reactor) {Packet, D} *)
 (* A listener is [f |-> set of class names, ig |-> raises IgnorePacket].   *)
 (* Four lists: early incoming, incoming, early outgoing, outgoing.         *)
+(* The reaction of a packet occurrence takes effect between its early and  *)
+(* its ordinary listeners: every log entry records whether the effect was  *)
+(* already visible when the listener ran (answer queued / compression on / *)
+(* reactor switched / connection closed).                                  *)
 (***************************************************************************)
 EXTENDS Naturals, Sequences, FiniteSets, TLC, Json
 
@@ -26,12 +32,15 @@ CONSTANTS Filters,      \* filter sets a listener may register
 VARIABLES EI, OI, EO, OO, hist, batch, st, forced,  \* configuration; forced: the user finally calls write_packet(force=True)
                                                     \* with a packet of kind "RA" (occurrence 99) (constant); batch: the server sends the whole
                                         \* history at once (one read batch, no write phase in between)
-          k, stage, queue, log, wire, closed, ignored, nw, fdone
+          k, stage, queue, log, wire, closed, ignored, nw, fdone,
+          reacted,      \* occurrences whose built-in reaction has taken effect
+          comp          \* compression envelope switched on
 cfgv == <<EI, OI, EO, OO, hist, batch, st, forced>>
-vars == <<EI, OI, EO, OO, hist, batch, st, forced, k, stage, queue, log, wire, closed, ignored, nw, fdone>>
+vars == <<EI, OI, EO, OO, hist, batch, st, forced, k, stage, queue, log, wire, closed, ignored, nw, fdone, reacted, comp>>
 
 Classes(p) == CASE p = "A" -> {"Packet", "Abs", "A"} [] p = "RA" -> {"Packet", "Abs", "RA"}
-                [] p = "B" -> {"Packet", "B"} [] p = "U" -> {"Packet"} [] p = "D" -> {"Packet", "D"}
+                [] p = "B" -> {"Packet", "B"} [] p = "U" -> {"Packet"} [] p = "D" -> {"Packet", "D"} [] p = "C" -> {"Packet", "C"}
+HasReaction(p) == p \in {"A", "C", "D"}
 
 Listener == [f : Filters, ig : BOOLEAN]
 Lists(n) == UNION {[1..m -> Listener] : m \in 0..n}
@@ -41,18 +50,20 @@ Matches(l, p) == l.f \cap Classes(p) # {}
 \* run one list on packet p: the calls made, and whether one of them raised IgnorePacket
 \* log entries are <<list, index, packet kind, occurrence>>; the occurrence of an incoming packet is its
 \* position in the history, that of an answer is the position of the packet it answers
-RECURSIVE RunFrom(_, _, _, _, _)
-RunFrom(L, name, p, occ, i) ==
+\* the fifth component: 1 iff the reaction to this occurrence is already in effect when the listener runs
+RECURSIVE RunFrom(_, _, _, _, _, _)
+RunFrom(L, name, p, occ, i, seen) ==
   IF i > Len(L) THEN [calls |-> <<>>, ig |-> FALSE]
-  ELSE IF ~Matches(L[i], p) THEN RunFrom(L, name, p, occ, i + 1)
-  ELSE IF L[i].ig THEN [calls |-> <<<<name, i, p, occ>>>>, ig |-> TRUE]
-  ELSE LET r == RunFrom(L, name, p, occ, i + 1) IN [calls |-> <<<<name, i, p, occ>>>> \o r.calls, ig |-> r.ig]
-RunList(L, name, p, occ) == RunFrom(L, name, p, occ, 1)
+  ELSE IF ~Matches(L[i], p) THEN RunFrom(L, name, p, occ, i + 1, seen)
+  ELSE IF L[i].ig THEN [calls |-> <<<<name, i, p, occ, seen>>>>, ig |-> TRUE]
+  ELSE LET r == RunFrom(L, name, p, occ, i + 1, seen) IN [calls |-> <<<<name, i, p, occ, seen>>>> \o r.calls, ig |-> r.ig]
+RunList(L, name, p, occ) == RunFrom(L, name, p, occ, 1, IF name \in {"EI", "OI"} /\ occ \in reacted THEN 1 ELSE 0)
 
 Init == /\ EI \in Lists(MaxIn) /\ OI \in Lists(MaxIn) /\ EO \in Lists(MaxOut) /\ OO \in Lists(MaxOut)
         /\ \E h \in Histories : hist = h \o <<"D">>
         /\ batch \in BOOLEAN /\ st \in States /\ forced = TRUE     \* (a run without the final forced write is a prefix of one with it)
         /\ k = 1 /\ stage = "early" /\ queue = <<>> /\ log = <<>> /\ wire = <<>> /\ closed = FALSE /\ ignored = FALSE /\ nw = 0 /\ fdone = FALSE
+        /\ reacted = {} /\ comp = FALSE
 
 Cur == hist[k]
 
@@ -62,12 +73,14 @@ Early == /\ stage = "early" /\ k <= Len(hist) /\ ~closed
               /\ log' = log \o r.calls
               /\ IF r.ig THEN stage' = "after" ELSE stage' = "react"       \* IgnorePacket: skip reactor and listeners
               /\ ignored' = r.ig
-         /\ UNCHANGED <<cfgv, k, queue, wire, closed, nw, fdone>>
+         /\ UNCHANGED <<cfgv, k, queue, wire, closed, nw, fdone, reacted, comp>>
 
 \* self.reactor.react(packet)
 ReactStep == /\ stage = "react"
              /\ queue' = IF Cur = "A" THEN Append(queue, k) ELSE queue        \* the answer to packet number k
              /\ stage' = IF Cur = "D" /\ st = "play" THEN "closing" ELSE "ordinary"
+             /\ reacted' = IF HasReaction(Cur) THEN reacted \cup {k} ELSE reacted
+             /\ comp' = (comp \/ Cur = "C")
              /\ UNCHANGED <<cfgv, k, log, wire, closed, ignored, nw, fdone>>
 
 \* disconnect(): flush the queue through _write_packet, then close; then the ordinary listeners still run
@@ -82,20 +95,20 @@ Closing == /\ stage = "closing"
            /\ nw' = IF queue # <<>> THEN nw + 1 ELSE nw
            /\ IF queue = <<>> \/ Len(queue) = 1 THEN closed' = TRUE /\ stage' = "ordinary"
               ELSE UNCHANGED <<closed, stage>>
-           /\ UNCHANGED <<cfgv, k, ignored, fdone>>
+           /\ UNCHANGED <<cfgv, k, ignored, fdone, reacted, comp>>
 
 \* for listener in packet_listeners: listener.call_packet(packet)
 Ordinary == /\ stage = "ordinary"
             /\ log' = log \o RunList(OI, "OI", Cur, k).calls
             /\ stage' = "after"
-            /\ UNCHANGED <<cfgv, k, queue, wire, closed, ignored, nw, fdone>>
+            /\ UNCHANGED <<cfgv, k, queue, wire, closed, ignored, nw, fdone, reacted, comp>>
 
 \* end of one packet: in a batch the next packet is read straight away
 After == /\ stage = "after"
          /\ IF batch /\ k < Len(hist) /\ ~closed
             THEN k' = k + 1 /\ stage' = "early"
             ELSE k' = k /\ stage' = "flush"
-         /\ UNCHANGED <<cfgv, queue, log, wire, closed, ignored, nw, fdone>>
+         /\ UNCHANGED <<cfgv, queue, log, wire, closed, ignored, nw, fdone, reacted, comp>>
 
 \* next write phase of the networking thread: _pop_packet -> _write_packet for everything queued
 Flush == /\ stage = "flush"
@@ -107,7 +120,7 @@ Flush == /\ stage = "flush"
                     ELSE LET o == RunList(OO, "OO", "RA", Head(queue)) IN
                          /\ log' = log \o e.calls \o o.calls /\ wire' = Append(wire, Head(queue))
                  /\ UNCHANGED <<k, stage>>
-         /\ UNCHANGED <<cfgv, closed, ignored, fdone>>
+         /\ UNCHANGED <<cfgv, closed, ignored, fdone, reacted, comp>>
 
 HistDone == (k > Len(hist) \/ (closed /\ stage = "early"))
 \* write_packet(packet, force=True) from the user: lock, early outgoing listeners, write, outgoing listeners;
@@ -118,7 +131,7 @@ Forced == /\ HistDone /\ forced /\ ~fdone /\ ~closed
                ELSE LET o == RunList(OO, "OO", "RA", 99) IN
                     /\ log' = log \o e.calls \o o.calls /\ wire' = Append(wire, 99)
           /\ fdone' = TRUE
-          /\ UNCHANGED <<cfgv, k, stage, queue, closed, ignored, nw>>
+          /\ UNCHANGED <<cfgv, k, stage, queue, closed, ignored, nw, reacted, comp>>
 Done == HistDone /\ (fdone \/ ~forced \/ closed)
 Next == Early \/ ReactStep \/ Closing \/ Ordinary \/ After \/ Flush \/ Forced \/ (Done /\ UNCHANGED vars)
 Spec == Init /\ [][Next]_vars /\ WF_vars(Early \/ ReactStep \/ Closing \/ Ordinary \/ After \/ Flush \/ Forced)
@@ -150,8 +163,15 @@ IgnoreStops ==
 \* an answer is on the wire iff no early outgoing listener ignored it
 WireIffNotSuppressed ==
   Done => Len(wire) <= Cardinality({j \in 1..Len(hist) : hist[j] = "A"}) + 1
+\* the built-in reaction sits between the early and the ordinary incoming listeners: no early listener sees its effect, every
+\* ordinary listener of a reacting packet does; and a reaction that an early listener ignored never happens
+ReactionBetweenStages ==
+  \A i \in 1..Len(log) : (log[i][5] = 1) <=> (log[i][1] = "OI" /\ HasReaction(log[i][3]))
+IgnoredNeverReacts ==
+  \A i \in 1..Len(log) :
+     (log[i][1] = "EI" /\ EI[log[i][2]].ig) => log[i][4] \notin reacted
 Terminates == <>Done
 
 EmitRows == (Emit /\ Done) =>
-  PrintT(ToJson([EI |-> EI, OI |-> OI, EO |-> EO, OO |-> OO, hist |-> hist, batch |-> batch, st |-> st, forced |-> forced, log |-> log, wire |-> wire, closed |-> closed]))
+  PrintT(ToJson([EI |-> EI, OI |-> OI, EO |-> EO, OO |-> OO, hist |-> hist, batch |-> batch, st |-> st, forced |-> forced, log |-> log, wire |-> wire, closed |-> closed, reacted |-> reacted, comp |-> comp]))
 =============================================================================
